@@ -11,9 +11,13 @@ import MahfModel.Proofs.C03
 namespace MahfModel.Props.C03
 open MahfModel.Config
 
-/-- Running a configuration is running the corresponding structured program
+/-- Running a configuration is running the structured program
 `init-everything-outside-scopes ; check-all-requirements ; execute` over
-`atomic | seq | while | if | { scoped }` — same trace, same result, same registry. -/
+`atomic | seq | while | if | { scoped }` into which the tree compiles node by node — same trace,
+same result, same registry. (`prog` is a compilation of the same tree, so this is a change of
+presentation — three traversals with `?` become one program in a six-construct language — not a
+comparison with an independently written oracle; the properties themselves are the theorems below,
+all of which are proved on the small language and transported through this equation.) -/
 theorem run_is_structured_program (s : Script) (fuel : Nat) (c : Comp) (σ : St) :
     run s fuel c σ = srun s fuel (prog c) σ :=
   run_eq s fuel c σ
@@ -97,6 +101,36 @@ theorem first_error_stops (s : Script) (fuel : Nat) (c : Comp) (σ : St) :
   · intro ph id h
     have := srun_errLast s fuel (prog c) σ ph id h
     simpa [St.trace, List.getLast?_reverse] using this
+
+/-- The first reached fault IS the result, for every kind of event (leaf `init` / `require` /
+`execute`, condition `init` / `require` / `evaluate`, with or without effects). Let `T` be the trace
+of the same run without fault injections.
+(1) If `e` is the first event of `T` (after the caller's prefix) at whose occurrence the script
+    injects a fault, the run returns exactly that error and its trace is `T` cut right after `e`.
+(2) If the script injects no fault at any event of `T`, the run is the fault-free run.
+So `run … = err (phase, id)` with a scripted fault iff the first reached fault is `(phase, id)`;
+an `Err` can neither be swallowed nor replaced by a later one. -/
+theorem fault_is_returned (s : Script) (fuel : Nat) (c : Comp) (σ : St) :
+    (∀ pre e post, (run s.noFaults fuel c σ).1.trace = pre ++ e :: post → σ.trace <+: pre →
+        s.quietAfter σ.trace pre → s.faulty e (pre.count e) = true →
+        (run s fuel c σ).2 = .err e.1 e.2 ∧ (run s fuel c σ).1.trace = pre ++ [e]) ∧
+    (s.quietAfter σ.trace (run s.noFaults fuel c σ).1.trace → run s fuel c σ = run s.noFaults fuel c σ) := by
+  rw [run_eq, run_eq]
+  obtain ⟨h1, h2⟩ := srun_fault_returned s fuel (prog c) σ
+  constructor
+  · intro pre e post hT hb hq hf
+    have hT' : (srun s.noFaults fuel (prog c) σ).1.tr = post.reverse ++ e :: pre.reverse := by
+      have := congrArg List.reverse hT
+      simpa [St.trace] using this
+    have hb' : σ.tr <:+ pre.reverse := by
+      have := List.reverse_suffix.mpr hb
+      simpa [St.trace] using this
+    have hc : Clean s σ.tr pre.reverse := by
+      rw [clean_iff_quiet]; simpa [St.trace] using hq
+    obtain ⟨r1, r2⟩ := h1 post.reverse e pre.reverse hT' hb' hc (by simpa using hf)
+    exact ⟨r1, by simp [St.trace, r2]⟩
+  · intro hq
+    exact h2 (by rw [clean_iff_quiet]; simpa [St.trace] using hq)
 
 /-- Loop: a loop execution ends normally iff its condition is re-initialised (once, on entry) and
 then, for some `n` below the bound, `n` times in a row the condition is evaluated to `true`, the
@@ -192,13 +226,13 @@ that no leaf `remove`s is present afterwards — also when the run ends in an er
 theorem caller_state_kept (s : Script) (fuel : Nat) (c : Comp) (k : Nat)
     (hc : c.sat (Act.keeps k) (fun _ => true) true = true) (σ : St)
     (h : (σ.reg.get? k).isSome = true) : ((run s fuel c σ).1.reg.get? k).isSome = true :=
-  run_frame s fuel (stable_present k) c hc σ h
+  run_frame s fuel (stable_present k true) c hc σ h
 
 /-- State created inside a scope is gone afterwards: a state type absent from the caller's state
 before a scope node is absent after it, whatever the body inserts and however it ends. -/
 theorem scope_locals_gone (s : Script) (fuel : Nat) (b : Comp) (k : Nat) (σ : St)
     (h : σ.reg.get? k = none) : (exec s fuel (.scope b) σ).1.reg.get? k = none :=
-  scope_frame s fuel (stable_absent k) b (Comp.sat_true b) σ h
+  scope_frame s fuel (stable_absent k true) b (Comp.sat_true b) σ h
 
 /-- Outer state that a scope shadows is restored: inserting `k` inside the scope (any number of
 times, at any depth) never disturbs the caller's `k`; as long as no leaf of the body `set`s or
@@ -206,12 +240,58 @@ times, at any depth) never disturbs the caller's `k`; as long as no leaf of the 
 theorem shadow_restored (s : Script) (fuel : Nat) (b : Comp) (k v : Nat) (hk : k ≠ 0)
     (hb : b.sat (Act.spares k) (fun _ => true) true = true) (σ : St)
     (h : σ.reg.get? k = some v) : (exec s fuel (.scope b) σ).1.reg.get? k = some v :=
-  scope_frame s fuel (stable_value k v hk) b hb σ h
+  scope_frame s fuel (stable_value k v hk true) b hb σ h
 
-/-- Changes to non-shadowed outer state persist: a scope whose body inserts nothing (no `insert`
-action and no loop, whose `init` inserts the counter) is transparent — same trace, same result and
-the same final registry as running the body's lifecycle directly in the caller's scope. -/
-theorem outer_writes_persist (s : Script) (fuel : Nat) (b : Comp)
+/-- Changes to non-shadowed outer state persist — for every body (loops, inserts of other state,
+nested scopes, any outcome): a state type `k` that no leaf of the body inserts (for `Iterations`:
+and the body has no loop) is found by the caller after the scope exactly as the body's own final
+state resolved it, i.e. with whatever the last executed `set_value` / `remove` made of it. -/
+theorem outer_writes_persist (s : Script) (fuel : Nat) (b : Comp) (k : Nat)
+    (hb : b.sat (Act.noInsOf k) (fun _ => true) (k != 0) = true) (σ : St) :
+    (exec s fuel (.scope b) σ).1.reg.get? k = (run s fuel b (push σ)).1.reg.get? k := by
+  rw [run_eq_scopeBody]; exact scope_exports s fuel b k hb σ
+
+/-- A state type that no leaf inserts, sets or removes keeps its value through any run and any
+execution, whatever else happens and however it ends. With `block_order` this pins the value after
+a block to the last executed write. -/
+theorem untouched_state_unchanged (s : Script) (fuel : Nat) (c : Comp) (k : Nat)
+    (hc : c.sat (Act.leaves k) (fun _ => true) (k != 0) = true) (σ : St) :
+    (run s fuel c σ).1.reg.get? k = σ.reg.get? k ∧ (exec s fuel c σ).1.reg.get? k = σ.reg.get? k :=
+  ⟨run_frame s fuel (stable_lookup k _) c hc σ rfl, exec_frame s fuel (stable_lookup k _) c hc σ rfl⟩
+
+/-- The last write wins: after a leaf that executes `set_value::<K>(v)` on a visible `K`, followed
+by any components that leave `K` alone (however they end), `K` holds `v`. -/
+theorem last_write_wins (s : Script) (fuel : Nat) (id k v : Nat) (ds : Comps)
+    (hd : ds.sat (Act.leaves k) (fun _ => true) (k != 0) = true) (σ : St)
+    (hvis : (σ.reg.get? k).isSome = true)
+    (hleaf : (exec s fuel (.leaf id [.set .exec k v]) σ).2 = .ok) :
+    (exec s fuel (.block (.cons (.leaf id [.set .exec k v]) ds)) σ).1.reg.get? k = some v := by
+  simp only [exec, execs] at hleaf ⊢
+  rcases step_cases s (Phase.exec, id) (leafEff .exec [.set .exec k v]) σ with h | ⟨r, hr, h⟩
+  · rw [h] at hleaf; cases hleaf
+  · rw [h]; simp only [andThen]
+    have hr' : r = σ.reg.setv k v := by
+      simp only [leafEff, applyActs, List.foldl_cons, List.foldl_nil, Act.apply, if_true] at hr
+      injection hr with hr; exact hr.symm
+    have hq : Reg.get? r k = some v := by rw [hr', Reg.get_setv_same]; simp [hvis]
+    have := exec_frame s fuel (stable_lookup k (some v)) (.block ds) (by simpa [Comp.sat] using hd)
+      ⟨r, (Phase.exec, id) :: σ.tr⟩ hq
+    simpa [exec] using this
+
+/-- Once shadowed, out of reach: if the body's `init` has put a `k` into the scope's child state and
+no leaf removes `k`, then whatever the body sets afterwards, the caller finds after the scope what
+`init` left outside the child. (Without the first premise the clause is false for `set_value`
+executed *before* the shadowing insert — that write goes to the caller's state by design; see the
+example below.) -/
+theorem shadow_holds_once_established (s : Script) (fuel : Nat) (b : Comp) (k : Nat)
+    (hb : b.sat (Act.keeps k) (fun _ => true) true = true) (σ σ1 : St) (m : Scope) (t : Reg)
+    (hi : initC s b (push σ) = (σ1, .ok)) (hr : σ1.reg = m :: t) (hm : m.has k = true) :
+    (exec s fuel (.scope b) σ).1.reg.get? k = Reg.get? t k :=
+  scope_shadow s fuel b k hb σ σ1 m t hi hr hm
+
+/-- A scope whose body inserts nothing at all (no `insert` action and no loop) is transparent — same
+trace, same result and the same final registry as running the body's lifecycle in place. -/
+theorem scope_without_locals_is_transparent (s : Script) (fuel : Nat) (b : Comp)
     (hb : b.sat Act.noIns (fun _ => true) false = true) (σ : St) :
     exec s fuel (.scope b) σ = run s fuel b σ :=
   scope_transparent s fuel b hb σ
@@ -234,5 +314,21 @@ example : (exec exScript 5 (.loop (.leaf 101) (.leaf 2 [.set .exec 2 9])) { exSt
 example : (Comp.leaf 2 [.set .exec 2 9]).sat Act.noIns (fun _ => true) false = true := by decide
 example : (run { exScript with fails := [(.exec, 2, 1)] } 5 (.scope exBody) exState).2 = .err .exec 2 := by decide
 example : (run { exScript with fails := [(.exec, 2, 1)] } 5 (.scope exBody) exState).1.reg.length = 1 := by decide
+
+-- per-key persistence with a loop and an insert of another key in the body
+example : exBody.sat (Act.noInsOf 2) (fun _ => true) (2 != 0) = true := by decide
+example : (exec exScript 5 (.scope exBody) exState).1.reg.get? 2 = some 9 := by decide
+-- a `set_value` executed before the shadowing insert reaches the caller's state (so "restored for all bodies" is false)
+example : (exec exScript 5 (.scope (.block (.cons (.leaf 1 [.set .exec 1 5]) (.cons (.leaf 2 [.ins .exec 1 7]) .nil))))
+    exState).1.reg.get? 1 = some 5 := by decide
+-- shadow established by `init`: later sets stay inside
+example : (exec exScript 5 (.scope (.leaf 1 [.ins .init 1 7, .set .exec 1 8])) exState).1.reg.get? 1 = some 100 := by decide
+-- the counter is NOT reset on loop entry: 7 before, two passes, 9 after
+example : (exec exScript 5 (.loop (.leaf 101) (.leaf 2 [.set .exec 2 9])) { exState with reg := [[(0, 7)]] }).1.reg.get? 0
+    = some 9 := by decide
+-- an init error stops the init pass: later siblings are not initialised
+example : (run { exScript with fails := [(.init, 1, 0)] } 5 exBody exState).1.trace = [(.init, 1)] := by decide
+example : exScript.faulty (.exec, 2) 0 = false ∧ ({ exScript with fails := [(.cinit, 101, 1)] } : Script).faulty (.cinit, 101) 1 = true := by decide
+example : (run { exScript with fails := [(.cinit, 101, 1)] } 5 exBody exState).2 = .err .cinit 101 := by decide
 
 end MahfModel.Props.C03
